@@ -549,7 +549,8 @@ fn is_public_mint(
         return Ok(true);
     }
 
-    let res: HasMemberResponse = if is_merkle_tree_wl(&wl_config) && proof_hashes.is_some() {
+    let is_merkle_proof = is_merkle_tree_wl(&wl_config) && proof_hashes.is_some();
+    let res: HasMemberResponse = if is_merkle_proof {
         deps.querier.query_wasm_smart(
             whitelist.clone(),
             &WhitelistMtreeQueryMsg::HasMember {
@@ -581,9 +582,10 @@ fn is_public_mint(
 
     // Check wl per address limit
     let wl_mint_count = whitelist_mint_count(deps, info, whitelist.clone())?;
+    // allocation is only authenticated when it was part of a verified merkle leaf
     let max_count = match allocation {
-        Some(allocation) => allocation,
-        None => wl_config.per_address_limit,
+        Some(allocation) if is_merkle_proof => allocation,
+        _ => wl_config.per_address_limit,
     };
     if wl_mint_count.0 >= max_count {
         return Err(ContractError::MaxPerAddressLimitExceeded {});
